@@ -138,6 +138,8 @@ func style(t *rapid.T) *gen.Style {
 	st.JoinLines = rapid.IntRange(0, 2).Draw(t, "joinLines") == 0 // effective when comments and empty annotations are off
 	st.BlankInEmpty = rapid.SampledFrom([]int{0, 0, 1, 2}).Draw(t, "blankInEmpty")
 	st.PropAfterArray = rapid.IntRange(0, 3).Draw(t, "propAfterArray") == 0
+	st.ColonGap = rapid.SampledFrom([]int{0, 0, 0, 1, 2, 3}).Draw(t, "colonGap")
+	st.TightAnn = rapid.IntRange(0, 4).Draw(t, "tightAnn") == 0
 	st.StrayNotes = rapid.SampledFrom([]int{0, 0, 1, 2, 3}).Draw(t, "strayNotes")
 	if st.JoinLines {
 		st.Comments, st.EmptyAnn, st.StrayNotes = 0, 0, 0 // joining lines only works where nothing else is written at the ends of lines
